@@ -222,7 +222,11 @@ def evaluate__mod_operator(self: XPathToken, context: ta.ContextType = None) \
 
     try:
         if isinstance(op1, int) and isinstance(op2, int):
-            return op1 % op2 if op1 * op2 >= 0 else -(abs(op1) % op2)
+            result = abs(op1) % abs(op2)
+            return -result if op1 < 0 else result
+        elif isinstance(op1, float) or isinstance(op2, float):
+            if math.isfinite(op1) and math.isfinite(op2) and op2 != 0:
+                return math.fmod(op1, op2)  # the result takes the sign of the dividend
         return op1 % op2  # type: ignore[operator]
     except TypeError as err:
         raise self.error('FORG0006', err) from None
